@@ -78,6 +78,8 @@ def impl(case):
         if k == "sim3":
             r, t, s = U(case["r"], (3, 3)), U(case["t"], 3), unhex(case["s"])
             S = lie.sim3(r, t, s)
+            if case.get("int_dtype"):      # matrices written with integer literals / loaded from an integer .npy
+                S = np.rint(S).astype(np.int64)
             sc = float(lie.sim3_scale(S))
             Sinv = lie.sim3_inverse(S)
             return {"S": H(S), "scale": hexf(sc), "inv": H(Sinv), "det": hexf(np.linalg.det(S[:3, :3]))}
@@ -341,6 +343,12 @@ def gen(ctx):
         s = float(10.0 ** rng.uniform(-4, 4))
         t = rng.normal(size=3) * 10.0 ** rng.integers(-6, 10)
         cases.append({"kind": "sim3", "r": H(rand_rot(rng)), "t": H(t), "s": hexf(s)})
+    # integer-typed Sim(3) matrices (axis-aligned rotation, integer scale and translation)
+    perms = [np.eye(3), np.array([[0, -1, 0], [1, 0, 0], [0, 0, 1.0]]), np.array([[0, 0, 1], [1, 0, 0], [0, 1, 0.0]]),
+             np.array([[-1, 0, 0], [0, -1, 0], [0, 0, 1.0]])]
+    for i in range(12 * n):
+        cases.append({"kind": "sim3", "r": H(perms[i % 4]), "t": H(np.rint(rng.normal(size=3) * 10)), "s": hexf(float([1, 2, 3, 5][i % 4])),
+                      "int_dtype": True})
     # exp / log: uniform, axis aligned, tiny angles, angles next to pi
     angles = [0.0, 1e-16, 1e-12, 1e-9, 1e-6, 1e-3, 0.5, 1.0, math.pi / 2, 2.0, 3.0, math.pi - 1e-3, math.pi - 1e-6,
               math.pi - 1e-9, math.pi - 1e-12, math.pi]
